@@ -66,7 +66,7 @@ def cases(tier):
             yield ("graphs", 5, lo, lo + step, 0, "edge4")
 
 
-def _program(n, edges, names, mode):
+def _program(n, edges, names, mode, spec=None):
     from mpilot.program import Program
     from ..vlib import graph as VL
 
@@ -75,7 +75,9 @@ def _program(n, edges, names, mode):
         return Program.from_source(G.render(n, edges, names), libraries=LIB)
     p = Program(libraries=LIB)
     for i in range(n):
-        p.add_command(VL.Node, names[i], dict(G.slots_of(n, edges, i, names)))
+        # spec: argument dictionaries kept by the caller and used for SEVERAL programs (a model kept as data and instantiated twice)
+        args = spec[i] if spec is not None else dict(G.slots_of(n, edges, i, names))
+        p.add_command(VL.Node, names[i], args)
     return p
 
 
@@ -139,6 +141,23 @@ def _one_program(n, edges, names, mode):
     if len(VL.LOG) != before:
         viols.append(V("C01:rerun:executed-again:" + mode, "re-run/re-read executed %r" % (VL.LOG[before:],), tag=tag))
     order = ">".join(x for e, x in VL.LOG if e == "enter")
+    if mode == "api" and any(k != "d" for _, _, k in edges) and not viols:
+        # the same argument objects (lists!) instantiate two programs; the second must be fed by ITS OWN commands
+        spec = [dict(G.slots_of(n, edges, i, names)) for i in range(n)]
+        frozen = repr(spec)
+        try:
+            p1 = _program(n, edges, names, "api", spec)
+            p1.run()
+            p2 = _program(n, edges, names, "api", spec)
+            p2.run()
+            v2 = _check_final(n, edges, names, p2, "api", dict(tag, second_program_from_same_argument_objects=True))
+            for v in v2:
+                v["key"] = v["key"].replace("C01:", "C01:shared-arguments:", 1)
+            viols += v2
+            if repr(spec) != frozen:
+                viols.append(V("C01:shared-arguments:argument-objects-modified", "building and running a program changed the caller's argument objects: %s -> %s" % (frozen, repr(spec)[:300]), tag=tag))
+        except Exception as exc:
+            viols.append(V("C01:shared-arguments:raised:%s" % type(exc).__name__, "second program built from the same argument objects raised %r" % (exc,), tag=tag))
     return viols, "ok order=" + order
 
 
